@@ -66,9 +66,85 @@ def _is_sur(c):
     return rng(c, 0xd800, 0xdfff)
 
 
+_BOMLESS = {'utf-16': 'utf-16-le', 'utf-32': 'utf-32-le', 'utf-8-sig': 'utf-8'}     # little-endian platform (checked below)
+_BOM = {'utf-16': [0xff, 0xfe], 'utf-32': [0xff, 0xfe, 0, 0], 'utf-8-sig': [0xef, 0xbb, 0xbf]}
+
+
+def _hexdigits(c, n):
+    """n lower-case hex digits of code point c (int or BV32) as byte elements"""
+    out = []
+    for i in range(n - 1, -1, -1):
+        if isinstance(c, int):
+            out.append(ord('%x' % ((c >> (4 * i)) & 15)))
+        else:
+            nib = z3.ZeroExt(4, z3.Extract(4 * i + 3, 4 * i, c))
+            out.append(z3.simplify(z3.If(z3.ULT(nib, 10), nib + 48, nib + 87)))
+    return out
+
+
+def _encode_with_handler(s, enc, errors):
+    """str.encode(enc, errors) for errors in ignore / replace / backslashreplace / xmlcharrefreplace: encodable runs go
+    through the strict model, each unencodable character through the handler's replacement text (ASCII), exactly as
+    the codec machinery does"""
+    import sys
+    if sys.byteorder != 'little':
+        raise Unmodelled('error handlers on a big-endian platform')
+    if errors not in ('ignore', 'replace', 'backslashreplace', 'xmlcharrefreplace'):
+        raise Unmodelled('encode errors=%r' % (errors,))
+    inner = _BOMLESS.get(enc, enc)
+    out = list(_BOM.get(enc, []))
+    run = []
+
+    def flush():
+        if run:
+            out.extend(lift(encode(mk_seq(run, str), inner)).el)
+            del run[:]
+    for c in lift(s).el:
+        if enc == 'ascii':
+            okc = (c < 128) if isinstance(c, int) else z3.ULT(c, 128)
+        elif enc == 'latin-1':
+            okc = (c < 256) if isinstance(c, int) else z3.ULT(c, 256)
+        else:
+            okc = neg(_is_sur(c))
+        if _br(okc):
+            run.append(c)
+            continue
+        flush()
+        if errors == 'ignore':
+            continue
+        if errors == 'replace':
+            rep = [63]
+        elif errors == 'backslashreplace':
+            if _br((c < 0x100) if isinstance(c, int) else z3.ULT(c, 0x100)):
+                rep = [92, 120] + _hexdigits(c, 2)
+            elif _br((c < 0x10000) if isinstance(c, int) else z3.ULT(c, 0x10000)):
+                rep = [92, 117] + _hexdigits(c, 4)
+            else:
+                rep = [92, 85] + _hexdigits(c, 8)
+        else:
+            v = c if isinstance(c, int) else SInt(z3.BV2Int(c)).concretize()
+            rep = list(('&#%d;' % v).encode('ascii'))
+        # the replacement is ASCII text, itself encoded in the target codec
+        if inner in ('ascii', 'latin-1', 'utf-8'):
+            out.extend(rep)
+        else:
+            unit = 2 if inner.startswith('utf-16') else 4
+            for b in rep:
+                cell = [b] + [0] * (unit - 1)
+                out.extend(cell if inner.endswith('le') else cell[::-1])
+    flush()
+    return mk_seq(out, bytes)
+
+
 def encode(s, name, errors='strict'):
     if errors != 'strict':
-        raise Unmodelled('encode errors=%r' % (errors,))
+        r = canon(name)
+        enc = r[0] if isinstance(r, tuple) else r
+        if not isinstance(s, SSeq) and not isinstance(name, SSeq):
+            return s.encode(name, errors)
+        if enc is None:
+            raise Unmodelled('encode errors=%r for a codec outside the bit-exact model' % (errors,))
+        return _encode_with_handler(s, enc, errors)
     r = canon(name)
     if isinstance(r, tuple):
         enc, info = r
